@@ -114,8 +114,8 @@ func (f *Formula) atoms(into map[string]bool) {
 type scope struct {
 	info  *types.Info
 	env   map[types.Object]string
-	local bool                      // identifiers of the analysed function may occur (aliases / ok-vars resolve)
-	bdef  map[types.Object]*Formula // boolean locals of an inlined predicate (defined once, before use)
+	local bool                         // identifiers of the analysed function may occur (aliases / ok-vars resolve)
+	bdef  map[types.Object]*Formula    // boolean locals of an inlined predicate (defined once, before use)
 	rest  func(pos token.Pos) *Formula // opaque value of the part of a predicate body that is not inlined
 }
 
